@@ -183,13 +183,24 @@ def bv_shr(a: BV, n: int) -> BV:
     return BV((a.lanes[n:] + [fill] * n)[:W])
 
 
+CARRY = "?carry"         # pseudo-dependency of a lane whose value was lost to an unknown carry / borrow ("unknown", not "mixed")
+
+
+def is_unknown(l) -> bool:
+    return isinstance(l, tuple) and l[0] == "T" and CARRY in l[1]
+
+
+IMPRECISE = [0]          # bumped whenever an addition / subtraction had to give up on carries (result lanes are "unknown", not "mixed")
+
+
 def bv_add(a: BV, b: BV) -> BV:
     out = []
     carry_unknown = False
     alldeps = a.deps() | b.deps()
+    lost = ("T", frozenset(alldeps | {CARRY}))
     for x, y in zip(a.lanes, b.lanes):
         if carry_unknown:
-            out.append(("T", alldeps))
+            out.append(lost)
             continue
         if x == 0:
             out.append(y)
@@ -197,7 +208,10 @@ def bv_add(a: BV, b: BV) -> BV:
             out.append(x)
         else:
             carry_unknown = True
-            out.append(("T", alldeps))
+            IMPRECISE[0] += 1
+            # no carry has come in yet: this lane is exactly x xor y; every lane above it is unknown (marked with CARRY)
+            exact = _xor(x, y)
+            out.append(exact if not (is_top(x) or is_top(y)) else ("T", frozenset(deps(x) | deps(y) | {CARRY})))
     return BV(out)
 
 
@@ -205,9 +219,10 @@ def bv_sub(a: BV, b: BV) -> BV:
     out = []
     borrow_unknown = False
     alldeps = a.deps() | b.deps()
+    lost = ("T", frozenset(alldeps | {CARRY}))
     for x, y in zip(a.lanes, b.lanes):
         if borrow_unknown:
-            out.append(("T", alldeps))
+            out.append(lost)
             continue
         if y == 0:
             out.append(x)
@@ -215,7 +230,9 @@ def bv_sub(a: BV, b: BV) -> BV:
             out.append(0)
         else:
             borrow_unknown = True
-            out.append(("T", alldeps))
+            IMPRECISE[0] += 1
+            exact = _xor(x, y)          # no borrow yet: the difference bit is x xor y
+            out.append(exact if not (is_top(x) or is_top(y)) else ("T", frozenset(deps(x) | deps(y) | {CARRY})))
     return BV(out)
 
 
